@@ -23,3 +23,35 @@ class Union:
 
 class List:
     pass
+
+
+# user classes that merely share their name with a typing construct the rewriters dispatch on
+class Dict:
+    pass
+
+
+class Set:
+    pass
+
+
+class Tuple:
+    pass
+
+
+class Generator:
+    pass
+
+
+class Iterator:
+    pass
+
+
+class DefaultDict:
+    pass
+
+
+class TypedDict:
+    pass
+
+
+TYPING_NAMED = [Union, List, Dict, Set, Tuple, Generator, Iterator, DefaultDict, TypedDict]
